@@ -151,7 +151,19 @@ class Ctx:
         return rc, out + err
 
     def build_model(self):
-        rc, log = self.lake(["gpcmodel"])
+        """build the driver and take a private copy of it (another check running at the same time may relink the
+        shared binary while this one is using it)"""
+        os.makedirs(os.path.join(LEAN, ".lake"), exist_ok=True)
+        with open(os.path.join(LEAN, ".lock"), "w") as lk:
+            fcntl.flock(lk, fcntl.LOCK_EX)
+            try:
+                rc, out, err = sh(["lake", "build", "gpcmodel"], cwd=LEAN, timeout=1800)
+                log = out + err
+                if rc == 0:
+                    self.model_exe = os.path.join(self.scratch, "gpcmodel")
+                    shutil.copy2(MODEL_EXE, self.model_exe)
+            finally:
+                fcntl.flock(lk, fcntl.LOCK_UN)
         if rc != 0:
             # the model itself no longer compiles (e.g. a regenerated table broke a definition)
             self.broken.append({"kind": "model-build", "name": "gpcmodel", "detail": log[-3000:]})
@@ -344,7 +356,7 @@ class Ctx:
         return res
 
     def run_model(self, cases, timeout=900):
-        return self.run_cases(MODEL_EXE, cases, timeout=timeout)
+        return self.run_cases(getattr(self, "model_exe", MODEL_EXE), cases, timeout=timeout)
 
     # ------------------------------------------------------------------ correspondence + oracle
     def correspond(self, name, exe, cases, oracle=None, nontrivial=None, env=None, compare=None,
